@@ -37,7 +37,8 @@ if os.environ.get("RV_C19_CASES"):      # development knob: only the first N cas
         _t["min_nontrivial"] = min(_t["min_nontrivial"], _t["cases"] // 3)
 
 RULE = ("four case kinds drawn per index. disc (~55%): discrete frame, 2-5 columns (thorough 2-6), cardinalities 2-5 "
-        "(thorough 2-7), 20-2000 rows (thorough up to 6000) forward-sampled iid / from a random BN whose CPTs contain "
+        "(thorough 2-7), 4-2000 rows (thorough up to 6000) plus a 'huge' regime in which 300-2000 sampled rows are repeated "
+        "10-60 (thorough 150) times (cell counts up to ~1e5, ~120 000 rows) forward-sampled iid / from a random BN whose CPTs contain "
         "exact zeros / skewed / near-deterministic copies (sparse strata, empty cells, strata with a single X or Y "
         "value); column dtypes int64 / int32 / category (str or int categories, shuffled category order, ordered or "
         "not, unobserved extra categories where the column is not X/Y of an unconditional test) / object-of-str; "
@@ -47,9 +48,16 @@ RULE = ("four case kinds drawn per index. disc (~55%): discrete frame, 2-5 colum
         "lambdas, 2 numeric lambdas, the default, the four wrappers and every name in the docstring table against "
         "the oracle; X<->Y, row-permutation and Z-permutation relations on two lambdas; verdicts at alpha in "
         "{0.01,0.05,0.5}, a drawn alpha, the tie alpha = p and nextafter(p). indep (~11%): outer-product counts in every "
-        "stratum (subsets of the X / Y values per stratum, incl. single-value strata), all lambdas: statistic 0, "
+        "stratum (subsets of the X / Y values per stratum, incl. single-value strata; multipliers 1-1000, up to ~120 000 "
+        "rows), all lambdas: statistic 0, "
         "p 1. cont (~17%): 50-500 rows (thorough up to 2000), 2-5 float columns from a random linear SEM with non-zero "
-        "means, |Z| 0-3: pearsonr against the intercept-residual oracle, affine maps on X, Y and a Z member, verdict "
+        "means, stored in plain units or with every column in its own unit (scale 10^U(-8,8), optionally shifted); "
+        "|Z| 0-3: pearsonr against the intercept-residual oracle evaluated in centred unit-variance units; affine maps "
+        "v -> a*v + b on X alone, Y alone, one Z member alone and all variables together with a log-uniform over "
+        "1e-8..1e8 and b = 0 or +-10^U(-3,6), the shift reduced where needed so that |mean|/sd of the stored image stays "
+        "<= 1e6 (beyond that the float64 column no longer carries the variation to the accuracy compared); each image "
+        "is judged against the oracle on the stored image with tolerance 1e-8 + 200 eps |mean|/sd + 0.1 eps "
+        "kappa([1,Z]) (1 + |mean|/sd of X,Y) (skipped as too ill-conditioned when that exceeds 0.05); verdict "
         "ties. pc (~17%): PC(data).build_skeleton / estimate(return_type='skeleton') with a named test, variant "
         "orig / stable / parallel(n_jobs=1), max_cond_vars 0-3, traced by a spy in PC.CI_TESTS; the registered function is also "
         "called with boolean=False on 3 traced triples and compared with the oracle of the named test. non-trivial: disc / "
@@ -57,7 +65,11 @@ RULE = ("four case kinds drawn per index. disc (~55%): discrete frame, 2-5 colum
         "some probe with non-empty Z; pc - some traced call with non-empty Z. distinct by digest of the whole spec")
 ASSUMPTIONS = ["scipy.stats.chi2.sf and scipy.stats.t.sf (distribution functions) are trusted",
                "numpy.linalg.lstsq is trusted for the residual oracle",
-               "float64 comparisons at 1e-9 abs + 1e-9 rel (statistic), 1e-9 abs (p), 1e-8 (correlation coefficient)",
+               "float64 comparisons at 1e-9 abs + 1e-9 rel (statistic), 1e-9 abs (p); correlation coefficient: 1e-8 + "
+               "200 eps max|mean|/sd + 0.1 eps kappa(raw design [1,Z]) (1 + max|mean|/sd of X,Y), p-value tolerance = the "
+               "oracle's own p(r +- tol) spread (observed errors of the fixed tree stay below 0.2% of this allowance)",
+               "affine images are generated only with |mean|/sd <= 1e6 per stored column: a float64 column beyond that keeps "
+               "fewer than ~10 significant digits of the variable's variation, so the stored frame is not an affine image",
                "scipy's Yates continuity correction on 1-dof tables is part of the documented test (chi2_contingency default)",
                "a declared-but-unobserved category of X or Y in an unconditional test is a refusal (zero margin) and is "
                "not generated",
